@@ -148,6 +148,10 @@ func (l simLogger) Error(f string, a ...interface{}) {
 	}
 }
 
+// OnWritten, when set, is registered as the engine's OnWrittenSize hook (the e2e world's C11
+// runs use it to look at the bytes the hook is given).
+var OnWritten func(c *nbio.Conn, b []byte, n int)
+
 // Fail records a violation of property prop; only the run's own property fails the run.
 func (w *World) Fail(prop, oracle, class, format string, a ...interface{}) {
 	if prop == w.Prop {
@@ -224,6 +228,9 @@ func NewWorld(t *testing.T, o *common.Outcome, prop string, cfg EngCfg, kp kerne
 	w.G = g
 	g.OnOpen(w.onOpen)
 	g.OnData(w.onData)
+	if OnWritten != nil {
+		g.OnWrittenSize(OnWritten)
+	}
 	g.OnClose(w.onClose)
 	return w
 }
